@@ -83,6 +83,8 @@ use crate::{
 
 #[cfg(test)]
 mod tests;
+#[cfg(libp2p_verif)]
+pub mod verif;
 
 /// IDONTWANT cache capacity.
 const IDONTWANT_CAP: usize = 10_000;
